@@ -8,11 +8,15 @@
 //             the Go string must equal print(format ..) byte for byte, and Go's
 //             regexp.MatchString on that string must equal the model's
 //             re_search on every subject (validates the regex semantics for the
-//             emitted fragment)
+//             emitted fragment) — both for the model expression and for the Go
+//             string read back by the model's independent reader (Reader.parse);
+//             subjects: derived from the pattern, plus random ones
 //   flows     a flow set loaded by the production loader: manage_all flag and the
 //             registered expressions from the real buildHAProxyFlowsEndpointsRequest,
 //             the engine's selection per (method, URL) from the stream's own filter
-//             tree, is_managed evaluated with Go regexp
+//             tree, is_managed evaluated with Go regexp; per selected filter the
+//             class the monitor's classifier gives (pattern, URL) — compared with
+//             the side conditions of the theorems (kc_at, url_ok_exact)
 //   policies  the same for policies.yaml endpoints (BuildHAProxyEndpointsRequest,
 //             BuildEndpointPolicyTree + the dispatcher's selection)
 package main
@@ -38,6 +42,7 @@ type run struct{ o *c.Out }
 func (r *run) flowCase(k *FlowCase, label string) {
 	o := r.o
 	execFlows(k)
+	probeClasses(k)
 	nontrivial := false
 	for _, p := range k.Probes {
 		if len(p.Selected) > 0 {
@@ -196,6 +201,7 @@ func generate(r *run) {
 	}
 
 	// ---- single expressions: byte-for-byte + regex semantics
+	rs := o.Rng.Fork(4)
 	for i, p := range pats {
 		ms := []string{"GET"}
 		if l := methodLists[i%len(methodLists)]; len(l) > 0 {
@@ -205,10 +211,10 @@ func generate(r *run) {
 			ms = append(ms, "A+B")
 		}
 		for _, m := range ms {
-			r.exprCase(&ExprCase{Method: m, URL: p, Subjects: subjectsFor(m, p)}, "method")
+			r.exprCase(&ExprCase{Method: m, URL: p, Subjects: subjectsFor(rs, m, p)}, "method")
 		}
 		if i%4 == 0 || (wide && i%2 == 0) {
-			r.exprCase(&ExprCase{AnyMethod: true, URL: p, Subjects: subjectsFor("HEAD", p)}, "any-method")
+			r.exprCase(&ExprCase{AnyMethod: true, URL: p, Subjects: subjectsFor(rs, "HEAD", p)}, "any-method")
 		}
 	}
 
